@@ -543,7 +543,10 @@ impl<'de, C> DeserializeSeed<'de> for DeserializeColumn<'de, C>
 where
     C: Component + Deserialize<'de>,
 {
-    type Value = (*mut C, usize);
+    // The column is handed back as a `Vec<C>`, not as its raw parts: a deserializer may still
+    // report an error after the visitor has returned (for example, for trailing elements), and the
+    // values must be dropped in that case.
+    type Value = Vec<C>;
 
     fn deserialize<D>(self, deserializer: D) -> Result<Self::Value, D::Error>
     where
@@ -557,7 +560,7 @@ where
         where
             C: Component + Deserialize<'de>,
         {
-            type Value = (*mut C, usize);
+            type Value = Vec<C>;
 
             fn expecting(&self, formatter: &mut fmt::Formatter) -> fmt::Result {
                 write!(
@@ -581,9 +584,7 @@ where
                     );
                 }
 
-                let mut v = ManuallyDrop::new(v);
-
-                Ok((v.as_mut_ptr(), v.capacity()))
+                Ok(v)
             }
         }
 
@@ -637,9 +638,14 @@ where
             where
                 A: SeqAccess<'de>,
             {
-                let entity_identifiers = seq
-                    .next_element_seed(DeserializeColumn::new(self.0.length))?
-                    .ok_or_else(|| de::Error::invalid_length(0, &self))?;
+                let mut entity_identifiers = ManuallyDrop::new(
+                    seq.next_element_seed(DeserializeColumn::new(self.0.length))?
+                        .ok_or_else(|| de::Error::invalid_length(0, &self))?,
+                );
+                let entity_identifiers = (
+                    entity_identifiers.as_mut_ptr(),
+                    entity_identifiers.capacity(),
+                );
 
                 let mut components = Vec::with_capacity(self.0.identifier.count());
                 let result =
